@@ -29,14 +29,24 @@ type Scenario struct {
 	Cleanup func(state any)
 	// Filter selects which sites are scheduling points (nil = all).
 	Filter func(kind, site string) bool
-	// MaxTicks bounds how many 100 ms clock advances may be injected (each is a deviation).
+	// MaxTicks bounds how many clock advances of TickStep (default 100 ms) may be injected (each
+	// is a deviation).
 	MaxTicks int
+	TickStep time.Duration
 	// Horizon bounds the number of scheduling steps of one execution.
 	Horizon int
 	// RoundRobin selects the default scheduler: false = the thread that ran last continues while
 	// it can (then lowest id); true = the next enabled thread after the one that ran last, in
 	// cyclic id order (a maximally interleaved base schedule).
 	RoundRobin bool
+	// Demote selects the priority scheduler (after PCT, Burckhardt et al. 2010, made exhaustive):
+	// threads have priorities (harness threads in declaration order, then the code's own
+	// goroutines in order of appearance); the default runs the highest-priority enabled thread;
+	// choosing another thread is one deviation and moves every enabled thread that was skipped to
+	// the bottom of the order — a skipped thread then starves until everything else is blocked or
+	// done, which is how "A stops here until B's whole operation (with all its hand-offs to other
+	// goroutines) has completed" costs a single deviation.
+	Demote bool
 }
 
 // Thread is one harness thread.
@@ -158,7 +168,12 @@ func RunExpect(sc *Scenario, prefix []int, expect []Point) (x *Exec) {
 		}
 	}()
 	running := -1
+	var prio []int // Demote policy: thread ids from highest to lowest priority
 	ticks := 0
+	tickStep := sc.TickStep
+	if tickStep == 0 {
+		tickStep = 100 * time.Millisecond
+	}
 	for {
 		synctest.Wait()
 		if vsched.HarnessAllDone() {
@@ -186,7 +201,28 @@ func RunExpect(sc *Scenario, prefix []int, expect []Point) (x *Exec) {
 			}
 			alts = append(alts, alt{t: p.T, clause: -1, cost: 1, desc: fmt.Sprintf("T%d %s@%s", p.T.ID, p.T.Kind, p.T.Site)})
 		}
-		if sc.RoundRobin {
+		if sc.Demote {
+			// keep the priority list complete (new threads at the bottom, before demoted ones is
+			// not needed: they simply come last)
+			for _, p := range ps {
+				found := false
+				for _, id := range prio {
+					if id == p.T.ID {
+						found = true
+					}
+				}
+				if !found {
+					prio = append(prio, p.T.ID)
+				}
+			}
+			for _, id := range prio {
+				for _, p := range ps {
+					if p.Enabled && p.T.ID == id {
+						add(p)
+					}
+				}
+			}
+		} else if sc.RoundRobin {
 			for _, p := range ps {
 				if p.Enabled && p.T.ID > running {
 					add(p)
@@ -217,7 +253,7 @@ func RunExpect(sc *Scenario, prefix []int, expect []Point) (x *Exec) {
 			if len(alts) == 0 {
 				c = 0
 			}
-			alts = append(alts, alt{tick: true, cost: c, desc: "clock +100ms"})
+			alts = append(alts, alt{tick: true, cost: c, desc: "clock +" + tickStep.String()})
 		}
 		if len(alts) == 0 {
 			x.Deadlock = true
@@ -263,10 +299,28 @@ func RunExpect(sc *Scenario, prefix []int, expect []Point) (x *Exec) {
 		a := alts[choice]
 		if a.tick {
 			ticks++
-			time.Sleep(100 * time.Millisecond)
+			time.Sleep(tickStep)
 			continue
 		}
 		running = a.t.ID
+		if sc.Demote && choice > 0 {
+			// every enabled thread listed before the chosen one was skipped: to the bottom
+			skipped := map[int]bool{}
+			for _, b := range alts[:choice] {
+				if !b.tick && b.t.ID != a.t.ID {
+					skipped[b.t.ID] = true
+				}
+			}
+			var keep, low []int
+			for _, id := range prio {
+				if skipped[id] {
+					low = append(low, id)
+				} else {
+					keep = append(keep, id)
+				}
+			}
+			prio = append(keep, low...)
+		}
 		if l := lockPtr(a.t); l != 0 {
 			if touched[l] == nil {
 				touched[l] = map[int]bool{}
